@@ -1412,3 +1412,29 @@ Proof.
   - apply bool_decide_eq_true. reflexivity.
   - rewrite bool_decide_eq_true_2 by reflexivity. apply uc_eqb_spec. reflexivity.
 Qed.
+
+(** * Ordering across different units — offset units included.
+      Whatever the units (multiplicative or a lone offset unit such as degC), ordering two
+      quantities of the same dimensionality written in different containers is ordering their
+      magnitudes in root units, offsets applied. *)
+Theorem cmp_via_root r op a b d a' b' :
+  uc_eqb (q_u a) (q_u b) = false →
+  dim_of r (q_u a) = Ok d → dim_of r (q_u b) = Ok d →
+  q_to_root r a = Ok a' → q_to_root r b = Ok b' →
+  q_cmp r op a (Qty b) = Ok (mcmp op (q_m a') (q_m b')).
+Proof.
+  intros E Da Db Ra Rb. unfold q_cmp. rewrite E, Da, Db. cbn [rbind]. rewrite uc_eqb_refl. cbn [negb].
+  rewrite Ra, Rb. reflexivity.
+Qed.
+(** hence covariance of <, <=, >, >= under re-expression in ANY unit with the same root-unit magnitude *)
+Corollary cmp_cov_root r op a b a2 b2 d a' b' a2' b2' :
+  uc_eqb (q_u a) (q_u b) = false → uc_eqb (q_u a2) (q_u b2) = false →
+  dim_of r (q_u a) = Ok d → dim_of r (q_u b) = Ok d → dim_of r (q_u a2) = Ok d → dim_of r (q_u b2) = Ok d →
+  q_to_root r a = Ok a' → q_to_root r b = Ok b' → q_to_root r a2 = Ok a2' → q_to_root r b2 = Ok b2' →
+  q_m a' = q_m a2' → q_m b' = q_m b2' →
+  q_cmp r op a (Qty b) = q_cmp r op a2 (Qty b2).
+Proof.
+  intros E E2 Da Db Da2 Db2 Ra Rb Ra2 Rb2 Ma Mb.
+  rewrite (cmp_via_root r op a b d a' b' E Da Db Ra Rb), (cmp_via_root r op a2 b2 d a2' b2' E2 Da2 Db2 Ra2 Rb2), Ma, Mb.
+  reflexivity.
+Qed.
